@@ -44,6 +44,10 @@ def cases(tier, seed):
             if tier != 'thorough' and two and o != (3, 2, 1, 0):
                 continue
             out.append(('order_%s%s' % (''.join(map(str, o)), '_2n' if two else ''), dict(kind='rename', naming=None, order=list(o), two_node=two, T=2)))
+    for o in ((3, 2, 1, 0), (1, 0, 3, 2), (2, 3, 0, 1)) if tier != 'thorough' else [p_ for p_ in orders if list(p_) != [0, 1, 2, 3]][::3]:
+        out.append(('order_%s_mixed_discount_rates' % ''.join(map(str, o)), dict(kind='rename', naming=None, order=list(o), two_node=False, T=2, wacc=True)))
+        out.append(('order_%s_mixed_discount_rates_repeated_setup' % ''.join(map(str, o)), dict(kind='rename', naming=None, order=list(o), two_node=False, T=2, wacc=True, repeat=True)))
+    out.append(('rename_numeric_mixed_discount_rates_repeated_setup', dict(kind='rename', naming='numeric', order=[0, 1, 2, 3], two_node=True, T=2, wacc=True, repeat=True)))
     out.append(('rename_and_order', dict(kind='rename', naming='numeric', order=[2, 0, 3, 1], two_node=True, T=3)))
     out.append(('many_variables_1x_x', dict(kind='rename', naming='many', order=[0, 1], two_node=False, T=12)))
     for nm, names in (('substring', ('gen', 'gen_big')), ('numeric', ('1', '12')), ('plain', ('ga', 'gb'))):
@@ -70,7 +74,7 @@ def build_many(D, names, T):
     return pf, tg, shapes.prices_for(D, ['p', 'q'], T), dict(c1=names[0], c2=names[1]), dict(n0='n0')
 
 
-def build(D, naming, order, two_node, T):
+def build(D, naming, order, two_node, T, wacc=False):
     """baseline roles are the symbol names; the asset / node names are nu(role)"""
     eao = lift.import_eao()
     if naming == 'many':
@@ -80,9 +84,10 @@ def build(D, naming, order, two_node, T):
     an, nn = NAMINGS[naming] if naming else ({r: r for r in ROLES}, {r: r for r in NODE_ROLES})
     tg = shapes.grid(T)
     n0, n1 = eao.assets.Node(nn['n0']), eao.assets.Node(nn['n1'])
-    c1 = shapes.mk_market(D, 'c1', n0, T, 'p', ec=True)
+    # wacc: assets with DIFFERENT discount rates (two of them none) -- whatever is shared between assets must not leak between them
+    c1 = shapes.mk_market(D, 'c1', n0, T, 'p', ec=True, wacc=D('wacc_c1', lo=0) if wacc else 0)
     sto = shapes.mk_storage(D, 'sto', [n0, n1] if two_node else n1, eff=0.75)
-    tr = shapes.mk_transport(D, 'tr', n0, n1, eff=0.5)
+    tr = shapes.mk_transport(D, 'tr', n0, n1, eff=0.5, wacc=D('wacc_tr', lo=0) if wacc else 0)
     c2 = shapes.mk_market(D, 'c2', n1, T, 'q')
     assets = [c1, sto, tr, c2]
     for a, r in zip(assets, ROLES):
@@ -137,8 +142,8 @@ def run_case(case_id, tier, seed, kind, **kw):
 
     def bld(D):
         if kind == 'rename':
-            pf, tg, prices, an, nn = build(D, kw['naming'], kw['order'], kw['two_node'], T)
-            pf0, tg0, prices0, an0, nn0 = build(D, None, [0, 1, 2, 3], kw['two_node'], T)
+            pf, tg, prices, an, nn = build(D, kw['naming'], kw['order'], kw['two_node'], T, kw.get('wacc', False))
+            pf0, tg0, prices0, an0, nn0 = build(D, None, [0, 1, 2, 3], kw['two_node'], T, kw.get('wacc', False))
             ren = renamer(an, nn)
             colmap = dict(assets=an, nodes=nn)
         else:
@@ -146,6 +151,8 @@ def run_case(case_id, tier, seed, kind, **kw):
             pf0, tg0, prices0 = build_linked(D, ['ga', 'gb'], False, T)
             ren = linked_renamer(kw['names'])
             colmap = None
+        if kw.get('repeat'):
+            pf.setup_optim_problem(prices, tg)        # re-optimisation: the same objects are set up again
         op = pf.setup_optim_problem(prices, tg)
         x = common.sym_x(len(op.c), 'x')
         out = eao.io.extract_output(pf, op, eao.optimization.Results(value=Sym.var('value'), x=x, duals=None))
@@ -236,11 +243,13 @@ def observe(case, kwargs, env, rq):
     kind = kw.pop('kind')
     T = kw['T']
     if kind == 'rename':
-        pf, tg, prices, an, nn = build(D, kw['naming'], kw['order'], kw['two_node'], T)
-        pf0, tg0, prices0, _, _ = build(D, None, [0, 1, 2, 3], kw['two_node'], T)
+        pf, tg, prices, an, nn = build(D, kw['naming'], kw['order'], kw['two_node'], T, kw.get('wacc', False))
+        pf0, tg0, prices0, _, _ = build(D, None, [0, 1, 2, 3], kw['two_node'], T, kw.get('wacc', False))
     else:
         pf, tg, prices = build_linked(D, kw['names'], kw['swap'], T)
         pf0, tg0, prices0 = build_linked(D, ['ga', 'gb'], False, T)
+    if kw.get('repeat'):
+        pf.setup_optim_problem(prices, tg)
     op = pf.setup_optim_problem(prices, tg)
     x = common.concrete_x(env, len(op.c))
     out = eao.io.extract_output(pf, op, eao.optimization.Results(value=float(env.get('value', 0.0)), x=x, duals=None))
